@@ -1,15 +1,52 @@
-import AFV.Model.Nest
-import AFV.Spec.NestExec
+import AFV.Lemmas.NestComputes
 /-!
 # C05 — model action counts, energy and latency = explicit LoopTree execution
+
+* `AFV/Model/Nest.lean` — `analytic`: the model of `evaluate_mapping` for one Einsum (reservation tracker, per-tensor
+  bottom-up propagation, `repeat_temporal`, conversion to actions, energy, latency).
+* `AFV/Spec/NestExec.lean` — `exec`: the reference execution (really iterates every loop; skipping of never-written
+  output values is decided from the history).
+
+Main theorem `analytic_counts_eq_exec`: for EVERY well-formed concrete mapping (`WF`, decidable; no bound on sizes, on
+the number of loops, holders, tensors or levels) `analytic` succeeds and its per-(level, tensor) read and write action
+counts and its compute count are exactly those of `exec`.
 -/
 namespace AFV.C05
 open AFV.Nest AFV.NestExec
 
 /-- The model's `_get_values_per_action` follows the documented precedence. -/
 theorem values_per_action_precedence (lv : Level Rat) (a : Act Rat) (t : TId) (bpv : Rat) :
-    valuesPerAction lv a t bpv = valuesPerActionSpec lv a t bpv := by
-  unfold valuesPerAction valuesPerActionSpec
-  cases h1 : lookup a.vpa t <;> cases h2 : lookup lv.vpa t <;> cases h3 : a.bpa <;> cases h4 : lv.bpa <;> simp
+    valuesPerAction lv a t bpv = valuesPerActionSpec lv a t bpv := vpa_precedence lv a t bpv
+
+/-- **Key lemma** (re-exported): iteration `k` of a loop finds its sub-tile never written iff the tile was never written
+and (the loop's rank variable indexes the tensor, or `k = 0`). -/
+theorem fresh_iff_irrelevant_zero (ti : TInfo) (hnd : ti.rvs.Nodup) (e : Env) (rv : RV) (tile n k : Nat)
+    (hb : rv < e.base.length) (hs : rv < e.shape.length) (hdiv : e.shape.getD rv 1 = tile * n) (hk : k < n)
+    (w wk : Elem → Bool) (f : Bool) (hpre : Pre ti e w f)
+    (hwk : ∀ x, wk x = true ↔ (w x = true ∨ (ti.isOut = true ∧ ∃ j, j < k ∧ inRegion (e.enter rv tile j) ti.rvs x = true))) :
+    Pre ti (e.enter rv tile k) wk (f && (ti.rvs.contains rv || k == 0)) :=
+  AFV.NestExec.fresh_iff_irrelevant_zero ti hnd e rv tile n k hb hs hdiv hk w wk f hpre hwk
+
+theorem scaleNi_eq (ni : Rat) :
+    (fun (x : Lvl × TId × Rat × Rat) => match x with | (l, t, r, wr) => (l, t, r * ni, wr * ni)) = scaleNi ni := by
+  funext x; obtain ⟨l, t, r, wr⟩ := x; rfl
+
+/-- **C05, counts.** On every well-formed mapping the model succeeds and its action counts per (level, tensor) —
+reads and writes — and its compute count equal those of the reference execution. -/
+theorem analytic_counts_eq_exec (arch : Arch Rat) (wq : Workload Rat) (wn : Workload Nat) (m : Mapping Nat)
+    (hwf : WF arch wn m = true) (hc : Compat wq wn) :
+    ∃ r, analytic arch wq (castMapping m) = some r ∧
+      r.actions = (exec arch wq wn m).actions ∧ r.computes = (exec arch wq wn m).computes := by
+  have hf := wf_facts arch wn m hwf
+  obtain ⟨bs, h1, h2⟩ := allBuffets_spec arch wq wn m hf hc wn.tensors.length 0 (by omega)
+  refine ⟨assemble arch wq (splitHolders (castMapping m)) bs, ?_, ?_, ?_⟩
+  · simp only [analytic, hc.len, h1]
+  · rw [exec_actions, ← h2]
+    simp only [assemble, List.map_map]
+    apply List.map_congr_left
+    intro b _
+    rfl
+  · have := computeOps_eq m wn.bounds hf.loops
+    simp only [assemble, exec, computeOps_split, hc.bounds, this]
 
 end AFV.C05
